@@ -27,7 +27,7 @@ struct CfgWeight : CfgBaseMorton {
     using Loc = std::array<unsigned long, 2>;
 };
 struct CfgCounterWeight : CfgWeight {
-    using Inner = TbfInteractionCounter<WeightKernel<Real, Space>>;
+    using Inner = TbfInteractionCounter<Probe<WeightKernel<Real, Space>, true>>;
     static constexpr bool hasCounters = true;
 };
 struct CfgTest : CfgBaseMorton {
@@ -38,7 +38,7 @@ struct CfgTest : CfgBaseMorton {
     using Loc = std::array<long, 1>;
 };
 struct CfgCounterTest : CfgTest {
-    using Inner = TbfInteractionCounter<TbfTestKernel<Real, Space>>;
+    using Inner = TbfInteractionCounter<Probe<TbfTestKernel<Real, Space>, true>>;
     static constexpr bool hasCounters = true;
 };
 
